@@ -24,9 +24,9 @@ EXPLANATION = (
     'disjoint; log type table name/format/size columns agree and equal the firmware codes; R7 both element constructors skip one '
     'metadata byte and take group then name from the NUL separated remainder; R8 Toc stores under [group][name] and the three '
     'look-ups read the same path; R9 completion is signalled only from the cache-hit, last-index and empty-table branches, and '
-    'the extended-type pass hands the completion on. R11 the persistence marker: an extended-type answer is accepted only as MISC_GET_EXTENDED_TYPE reply for the id just asked, once, and marks the element with that id (shared with C04.R10). R12 cache present: encoder and decoder of the cache agree key by key and both handle `extended` for parameter elements (shared with C11.R4). Reply orders as such are not enumerated: R1 and R11 are the structural guards.')
+    'the extended-type pass hands the completion on. R11 the persistence marker: an extended-type answer is accepted only as MISC_GET_EXTENDED_TYPE reply for the id just asked, once, and marks the element with that id (shared with C04.R10). R13 add_port_callback / remove_port_callback register and drop the same five-field entry, so a finished TocFetcher really unregisters (shared with C07.R6); R12 cache present: encoder and decoder of the cache agree key by key and both handle `extended` for parameter elements (shared with C11.R4). Reply orders as such are not enumerated: R1 and R11 are the structural guards.')
 ASSUMPTIONS = ['firmware log.h type codes 1..8 and parameter type-byte bit semantics are as tabulated in this check']
-FLOORS = {'R12': 8, 'R11': 14, 'R10': 3, 'R1': 4, 'R2': 8, 'R3': 20, 'R4': 2, 'R5': 4, 'R6': 20, 'R7': 6, 'R8': 5, 'R9': 4}
+FLOORS = {'R13': 2, 'R12': 8, 'R11': 14, 'R10': 3, 'R1': 4, 'R2': 8, 'R3': 20, 'R4': 2, 'R5': 4, 'R6': 20, 'R7': 6, 'R8': 5, 'R9': 4}
 
 FW_LOG_TYPES = {1: ('uint8_t', 1), 2: ('uint16_t', 2), 3: ('uint32_t', 4), 4: ('int8_t', 1), 5: ('int16_t', 2), 6: ('int32_t', 4),
                 7: ('float', 4), 8: ('FP16', 2)}
@@ -282,6 +282,36 @@ def param_name_terms(init):
 
 
 
+def param_type_table_rules(ctx, rule='R6'):
+    """ParamTocElement.types: the struct format of every type code has the size (1 << (code & 3)), floatness (bit 2) and signedness
+    (bit 3) the code says, and the C name agrees.  Shared with C04 (a value is packed/unpacked with the declared type: range check and
+    sign come from this table)."""
+    m = ctx.model
+    pe = m.cls(PAR, 'ParamTocElement')
+    types = fold_in(pe.method('__init__'), pe.consts['types'])
+    ctx.need(isinstance(types, dict), 'ParamTocElement.types not foldable')
+    cnames = {(1, False, False): 'int8_t', (2, False, False): 'int16_t', (4, False, False): 'int32_t', (8, False, False): 'int64_t',
+              (1, False, True): 'uint8_t', (2, False, True): 'uint16_t', (4, False, True): 'uint32_t', (8, False, True): 'uint64_t',
+              (4, True, False): 'float', (8, True, False): 'double'}
+    for code, (cname, fmt) in sorted(types.items()):
+        if code == 0x05:
+            ctx.inst(rule, (PAR, 'ParamTocElement'), 'param-type:0x05', (cname, fmt) == ('FP16', ''), 'FP16 carries no struct format (reviewed exception)')
+            continue
+        size = 1 << (code & 3)
+        is_float = bool(code & 4)
+        unsigned = bool(code & 8)
+        try:
+            fsize = struct.calcsize(fmt)
+        except struct.error:
+            fsize = None
+        letter = fmt[-1:] if fmt else ''
+        ok = fmt[:1] == '<' and fsize == size and (letter in 'fd') == is_float and (is_float or (letter.isupper() == unsigned)) and \
+            cnames.get((size, is_float, unsigned)) == cname
+        ctx.inst(rule, (PAR, 'ParamTocElement'), 'param-type:0x%02X' % code, ok,
+                 'type 0x%02X (%d bytes, float=%s, unsigned=%s) mapped to (%s, %s)' % (code, size, is_float, unsigned, cname, fmt))
+    ctx.inst(rule, (PAR, 'ParamTocElement'), 'param-type-set', set(types) == {0, 1, 2, 3, 5, 6, 7, 8, 9, 10, 11}, 'type codes present: %s' % sorted(types))
+
+
 def check(ctx):
     m = ctx.model
     fetcher, cb, g, pkv, adds, reqs = fetch_guard_rules(ctx, 'R1')
@@ -399,28 +429,7 @@ def check(ctx):
 
     # ---- R6: type tables ----------------------------------------------------------------------------
     pe = m.cls(PAR, 'ParamTocElement')
-    types = fold_in(pe.method('__init__'), pe.consts['types'])
-    ctx.need(isinstance(types, dict), 'ParamTocElement.types not foldable')
-    cnames = {(1, False, False): 'int8_t', (2, False, False): 'int16_t', (4, False, False): 'int32_t', (8, False, False): 'int64_t',
-              (1, False, True): 'uint8_t', (2, False, True): 'uint16_t', (4, False, True): 'uint32_t', (8, False, True): 'uint64_t',
-              (4, True, False): 'float', (8, True, False): 'double'}
-    for code, (cname, fmt) in sorted(types.items()):
-        if code == 0x05:
-            ctx.inst('R6', (PAR, 'ParamTocElement'), 'param-type:0x05', (cname, fmt) == ('FP16', ''), 'FP16 carries no struct format (reviewed exception)')
-            continue
-        size = 1 << (code & 3)
-        is_float = bool(code & 4)
-        unsigned = bool(code & 8)
-        try:
-            fsize = struct.calcsize(fmt)
-        except struct.error:
-            fsize = None
-        letter = fmt[-1:] if fmt else ''
-        ok = fmt[:1] == '<' and fsize == size and (letter in 'fd') == is_float and (is_float or (letter.isupper() == unsigned)) and \
-            cnames.get((size, is_float, unsigned)) == cname
-        ctx.inst('R6', (PAR, 'ParamTocElement'), 'param-type:0x%02X' % code, ok,
-                 'type 0x%02X (%d bytes, float=%s, unsigned=%s) mapped to (%s, %s)' % (code, size, is_float, unsigned, cname, fmt))
-    ctx.inst('R6', (PAR, 'ParamTocElement'), 'param-type-set', set(types) == {0, 1, 2, 3, 5, 6, 7, 8, 9, 10, 11}, 'type codes present: %s' % sorted(types))
+    param_type_table_rules(ctx, 'R6')
     init = pe.method('__init__')
     masks = {}
     for n in ast.walk(init.node):
@@ -486,6 +495,8 @@ def check(ctx):
     cache_name_rules(ctx, 'R10')       # cache present: only a table stored under exactly the announced CRC may be adopted
     ext_fetcher_rules(ctx, 'R11')      # persistence marker: the extended-type pass (shared with C04.R10)
     from .c11 import cache_codec_rules
+    from .c07 import port_registration_rules
+    port_registration_rules(ctx, 'R13')    # a finished fetcher really unregisters: port (un)registration agree on all five fields (shared with C07.R6)
     cache_codec_rules(ctx, 'R12')      # cache present: cached elements carry every attribute, `extended` included (shared with C11.R4)
 
     # ---- R9: completion ------------------------------------------------------------------------------------------
